@@ -585,11 +585,40 @@ def eval_pure(fn, start_block, start_stmt, env, stop):
 
 # --------------------------------------------------------------------------- emission templates (what a writer emits, per path)
 
-def enumerate_paths(fn, start, on_call, max_paths=400, follow_errors=False, on_stmt=None):
+def enumerate_paths(fn, start, on_call, max_paths=400, follow_errors=False, on_stmt=None, trace=False):
     """All acyclic success paths from block `start` to a return.  `on_call(term)` maps a call terminator to a token
     (or None).  `?` is followed on its Continue edge only.  Returns [(conds, tokens)] where conds records the boolean /
-    Option / enum decisions taken: (description, outcome)."""
+    Option / enum decisions taken: (description, outcome).  With trace=True every decision is also interleaved in the
+    token list as ("?", description, outcome, origin), so that rules can tell what was tested *before* an emission.
+    Boolean temporaries are tracked per path (`let ok = a && b; if ok {..}` assigns constants to a local on the
+    branches of `a`/`b` and switches on it later): a switch on a local whose value on this path is a known constant
+    follows only the feasible edge, so such a spelling yields the same paths as the nested `if`."""
     out = []
+
+    def local_of(op):
+        return op[1][0] if op[0] in ("c", "m") and len(op[1]) == 1 else None
+
+    def step_env(env, st):
+        if st[0] != "=" or len(st[1]) != 1:
+            return env
+        d, rv = st[1][0], st[2]
+        v = None
+        if rv[0] == "use":
+            if rv[1][0] == "k" and rv[1][1].get("kind") == "int" and rv[1][1].get("ty") == "bool":
+                v = int(rv[1][1]["v"])
+            elif local_of(rv[1]) in env:
+                v = env[local_of(rv[1])]
+        elif rv[0] == "un" and rv[1] == "Not" and local_of(rv[2]) in env:
+            iv = env[local_of(rv[2])]
+            v = 1 - iv if isinstance(iv, int) else (iv[1] if iv[0] == "not" else ("not", iv))
+        if v is None:
+            if d in env:
+                env = dict(env)
+                del env[d]
+            return env
+        env = dict(env)
+        env[d] = v
+        return env
 
     def describe(o):
         if o[0] == "call":
@@ -599,25 +628,27 @@ def enumerate_paths(fn, start, on_call, max_paths=400, follow_errors=False, on_s
             return "param%d" % o[1]
         return o[0]
 
-    def walk(bi, conds, toks, seen):
+    def walk(bi, conds, toks, seen, env=None):
+        env = env or {}
         if len(out) > max_paths:
             raise CheckError("%s: too many paths" % fn.name)
         if bi in seen:
             raise CheckError("%s: loop met while enumerating emission paths (bb%d)" % (fn.name, bi))
         seen = seen | {bi}
         b = fn.blocks[bi]
-        if on_stmt is not None:
-            for st in b["s"]:
+        for st in b["s"]:
+            if on_stmt is not None:
                 tk = on_stmt(st)
                 if tk is not None:
                     toks = toks + [tk]
+            env = step_env(env, st)
         t = b["t"]
         k = t["t"]
         if k == "ret":
             out.append((conds, toks))
             return
         if k in ("goto", "drop", "assert"):
-            return walk(t["to"], conds, toks, seen)
+            return walk(t["to"], conds, toks, seen, env)
         if k == "unreach" or k == "resume":
             return
         if k == "call":
@@ -626,17 +657,48 @@ def enumerate_paths(fn, start, on_call, max_paths=400, follow_errors=False, on_s
             tok = on_call(t)
             if tok is not None:
                 toks = toks + [tok]
-            return walk(t["to"], conds, toks, seen)
+            if len(t["dest"]) == 1:
+                d0 = t["dest"][0]
+                if fn.locals[d0]["ty"] == "bool":
+                    env = dict(env)
+                    env[d0] = ("call", t)          # a boolean temporary may receive a call's verdict on this path
+                elif d0 in env:
+                    env = dict(env)
+                    del env[d0]
+            return walk(t["to"], conds, toks, seen, env)
         if k == "switch":
+            if t.get("ty") == "bool" and isinstance(env.get(local_of(t["on"])), int):
+                # boolean temporary with a known value on this path: only the feasible edge
+                v = env[local_of(t["on"])]
+                nxt = t["else"]
+                for sv, tb in t["vals"]:
+                    if int(sv) == v:
+                        nxt = tb
+                return walk(nxt, conds, toks, seen, env)
+            bs0 = bool_switch(fn, bi)
+            if t.get("ty") == "bool" and local_of(t["on"]) in env and not (bs0 and bs0[0][0] in ("call", "const")):
+                # boolean temporary that holds, on this path, the verdict of a call (last operand of a `&&`/`||` chain
+                # bound by `let`): the decision is that call's
+                ev, neg = env[local_of(t["on"])], False
+                while ev[0] == "not":
+                    ev, neg = ev[1], not neg
+                vals = dict((sv, tb) for sv, tb in t["vals"])
+                false_t, true_t = (vals["0"], t["else"]) if "0" in vals else (t["else"], vals.get("1"))
+                if neg:
+                    true_t, false_t = false_t, true_t
+                d = describe(ev)
+                walk(true_t, conds + [(d, True, ev)], toks + ([("?", d, True, ev)] if trace else []), seen, env)
+                walk(false_t, conds + [(d, False, ev)], toks + ([("?", d, False, ev)] if trace else []), seen, env)
+                return
             bs = bool_switch(fn, bi)
             if bs:
                 o = bs[0]
                 d = describe(o)
                 if o[0] == "const":
                     v = o[1].get("v") == "1"
-                    return walk(bs[1] if v else bs[2], conds, toks, seen)
-                walk(bs[1], conds + [(d, True, o)], toks, seen)
-                walk(bs[2], conds + [(d, False, o)], toks, seen)
+                    return walk(bs[1] if v else bs[2], conds, toks, seen, env)
+                walk(bs[1], conds + [(d, True, o)], toks + ([("?", d, True, o)] if trace else []), seen, env)
+                walk(bs[2], conds + [(d, False, o)], toks + ([("?", d, False, o)] if trace else []), seen, env)
                 return
             var = t.get("variants")
             o = fn.origin(t["on"])
@@ -648,20 +710,21 @@ def enumerate_paths(fn, start, on_call, max_paths=400, follow_errors=False, on_s
             if var and var["enum"] == "core::ops::control_flow::ControlFlow" and not follow_errors:
                 for v, tb in t["vals"]:
                     if var["names"].get(v) == "Continue":
-                        return walk(tb, conds, toks, seen)
-                return walk(t["else"], conds, toks, seen)
+                        return walk(tb, conds, toks, seen, env)
+                return walk(t["else"], conds, toks, seen, env)
             names = var["names"] if var else {}
             d = describe(src) if src else "switch"
             taken = set()
             for v, tb in t["vals"]:
                 taken.add(v)
-                walk(tb, conds + [(d, names.get(v, v), src)], toks, seen)
+                walk(tb, conds + [(d, names.get(v, v), src)], toks + ([("?", d, names.get(v, v), src)] if trace else []), seen, env)
             rest = [n for v, n in names.items() if v not in taken]
             if not var or rest:
                 # the otherwise edge stands for the remaining variants
                 tgt = fn.blocks[t["else"]]
                 if tgt["t"]["t"] != "unreach":
-                    walk(t["else"], conds + [(d, "|".join(sorted(rest)) or "otherwise", src)], toks, seen)
+                    oth = "|".join(sorted(rest)) or "otherwise"
+                    walk(t["else"], conds + [(d, oth, src)], toks + ([("?", d, oth, src)] if trace else []), seen, env)
             return
         raise CheckError("%s: unsupported terminator %s" % (fn.name, k))
     walk(start, [], [], frozenset())
